@@ -669,6 +669,10 @@ VALS = [
     ("{'k': @vw.src}", {'k': ('ref', 'vw.src', False)}, [], [], {}, True),
     ('%mac', ('macro', 'mac'), [], [], {}, False),              # the macro itself holds an object()
     ("[(), {'a': [None, -0.5]}, 'x' 'y']", [(), {'a': [None, -0.5]}, 'xy'], [], [], {}, True),
+    # used macros whose value is falsy: each must still appear as a macro definition (and the text must replay)
+    ('[%mn, %m0, %me, %mf, %ml]', [('macro', 'mn'), ('macro', 'm0'), ('macro', 'me'), ('macro', 'mf'), ('macro', 'ml')],
+     ['mn = None', 'm0 = 0', "me = ''", 'mf = False', 'ml = []'], [],
+     {('', 'mn'): None, ('', 'm0'): 0, ('', 'me'): '', ('', 'mf'): False, ('', 'ml'): []}, True),
 ]
 NVALS = len(VALS)
 SRC_BINDS = {('', 'vw.src'): {'v': 9}, ('s', 'vw.src'): {'v': 8}, ('mac', 'vw.src'): {'v': 7}, ('k', 'vw.src'): {'v': 6}}
@@ -676,7 +680,7 @@ SRC_BINDS = {('', 'vw.src'): {'v': 9}, ('s', 'vw.src'): {'v': 8}, ('mac', 'vw.sr
 
 def c07_values(val: int, where: int, ma: int) -> bool:
   """
-  pre: 0 <= val < 20 and 0 <= where < 3 and 0 <= ma < 2
+  pre: 0 <= val < 21 and 0 <= where < 3 and 0 <= ma < 2
   """
   val = rt.pick(val, NVALS)
   where = rt.pick(where, 3)       # 0: bound and called at root, 1: bound for scope s and called in s, 2: bound at root, called in s
